@@ -140,7 +140,9 @@ def check(repo: Repo, run: Run) -> None:
     cases = []
     floops = [lr for lr in rec.loops.values() if lr.kind == "for" and lr.iter == frames_src]
     comps = [lr for lr in rec.loops.values() if lr.kind == "comp" and lr.term is not None and len(lr.term.a[2]) == 1
-             and lr.term.a[2][0][1] == frames_src and lr.term.a[0] == "list" and not lr.term.a[2][0][2]]
+             and lr.term.a[2][0][1] == frames_src and not lr.term.a[2][0][2]
+             and (lr.term.a[0] == "list" or (lr.term.a[0] == "gen" and any(
+                 c.func == T("builtin", ("list",)) and c.args == (lr.term,) and not c.kwargs for c in rec.calls)))]
     one_pass = False
     if len(floops) == 1 and not comps:
         fl = floops[0]
@@ -204,16 +206,39 @@ def check(repo: Repo, run: Run) -> None:
                    facts={"index": sym.pretty(idx)[:100]}, line=hit[0][2],
                    witness="a frame exactly equal to an image's load address / a frame above the highest image")
             # guard: the attributed construction happens only when index >= 0
-            okg = False
+            # the conditions of the path that compare a linear form of b = bisect(...) with a constant are evaluated for
+            # every b the call can return (b >= 0; beyond the largest constant nothing changes): together they must
+            # hold exactly when b >= 1, i.e. when index = b - 1 >= 0
+            def lin(t):
+                """t == coef * b + k  ->  (coef, k)"""
+                if t == inner:
+                    return (1, 0)
+                if t.op == "const" and isinstance(t.a[0], int) and not isinstance(t.a[0], bool):
+                    return (0, t.a[0])
+                if t.op == "bin" and t.a[0] in ("+", "-"):
+                    l, r = lin(t.a[1]), lin(t.a[2])
+                    if l is None or r is None:
+                        return None
+                    sg = 1 if t.a[0] == "+" else -1
+                    return (l[0] + sg * r[0], l[1] + sg * r[1])
+                return None
+            CMP = {"<": lambda x, y: x < y, "<=": lambda x, y: x <= y, ">": lambda x, y: x > y, ">=": lambda x, y: x >= y,
+                   "==": lambda x, y: x == y, "!=": lambda x, y: x != y}
+            tests, bound = [], 2
             for c, pol in hit[0][0]:
                 atom, apol = render.norm_bool(c)
                 eff = pol if apol else not pol
-                if atom.op == "cmp" and atom.a[1] == idx and atom.a[2].op == "const":
-                    op, k = atom.a[0], atom.a[2].a[0]
-                    if not eff:
-                        op = {"<": ">=", "<=": ">", ">": "<=", ">=": "<", "==": "!=", "!=": "=="}[op]
-                    if (op == ">" and k == -1) or (op == ">=" and k == 0) or (op == "!=" and k == -1):
-                        okg = True
+                if atom.op == "cmp" and atom.a[0] in CMP:
+                    l, r = lin(atom.a[1]), lin(atom.a[2])
+                    if l is not None and r is not None and (l[0] or r[0]):
+                        tests.append((atom.a[0], l, r, eff))
+                        bound = max(bound, abs(l[1]) + abs(r[1]) + 2)
+                elif lin(atom) is not None and lin(atom)[0]:
+                    tests.append(("!=", lin(atom), (0, 0), eff))        # `if b:` / `if b - 1 + 1:`
+                    bound = max(bound, abs(lin(atom)[1]) + 2)
+            okg = bool(tests) and all(
+                all(CMP[op](l[0] * b + l[1], r[0] * b + r[1]) == eff for op, l, r, eff in tests) == (b >= 1)
+                for b in range(0, bound + 1))
             run.ob("R2", MOD, "CallstacksParser.feed_generator", "attribution only when an image at or below the frame exists", okg,
                    "the attributed branch is not guarded by index > -1 / >= 0: with no image below the frame, index -1 reads the LAST "
                    "image and yields a negative offset", line=hit[0][2])
